@@ -78,6 +78,15 @@ def make_case(seed, idx, tier):
         d["sprout"]["far"] = 1e-9
         d["gsc"] = {"k": "melimit", "n": 4}
     d["c14"] = True
+    if idx % 4 == 2:
+        # the run carried out in pieces through the public stepping methods (run_step() a few times, then run()) - or wholly by hand
+        d["entry"] = "tree"
+        d["steps_before_run"] = 1 + (idx // 4) % 3
+        if idx % 16 == 10:
+            d["entry"] = "hand"
+            d["hand_bump"] = True  # (without it every CMA-ES deme starts "at metaepoch 0": with random_seed=0 cma is then handed seed 0 = "seed from the clock", DESIGN 10.5)
+            d["hand_steps"] = 3 + (idx // 16) % 3
+            d.pop("steps_before_run")
     if idx % 4 == 1:
         d["history_twin"] = True
         if idx % 8 == 1:
@@ -220,6 +229,8 @@ def run_case(desc):
         cov["two_seed_consuming_demes_sprouted_onto_one_level_in_one_metaepoch"] += 1
     if desc.get("options", {}).get("random_seed") == 2**32 - 2 and any(dm["class"] == "CMADeme" and dm["started_at"] == 1 for dm in s1.get("demes", [])):
         cov["cma_deme_handed_the_largest_seed_numpy_accepts"] += 1
+    if desc.get("steps_before_run") or desc.get("entry") == "hand":
+        cov["seeded_runs_carried_out_through_the_stepping_methods"] += 1
     if n_demes >= 2:
         cov["descriptors_with_2_demes"] += 1
     if len(desc["levels"]) >= 3:
